@@ -21,6 +21,9 @@ pub fn hex(bs: &[u8]) -> String {
 }
 
 pub fn unhex(s: &str) -> Option<Vec<u8>> {
+    if s == "-" {
+        return Some(Vec::new());
+    }
     let b = s.as_bytes();
     if b.len() % 2 != 0 {
         return None;
